@@ -25,4 +25,8 @@ theorem holds_every_transport_announced (id transports : Nat) :
 theorem holds_door_open_at_arrival (doorDelayMs arriveAfterAckMs : Nat) : Hygiene.doorOpenAtArrival Facts.hygiene doorDelayMs arriveAfterAckMs = true :=
   Props.Hygiene.door_open_at_arrival _ (by decide) doorDelayMs arriveAfterAckMs
 
+theorem holds_reaccepted_entry_survives (oldClosedAgain : Bool) :
+    GrpcMux.reacceptedEntrySurvives Facts.grpcKnockLoop oldClosedAgain = true :=
+  Props.C08.reaccepted_entry_survives _ (by decide) oldClosedAgain
+
 end GoPlugin.Instance.C08
